@@ -113,7 +113,12 @@ def run_shard(ctx, shard):
         k = 3 if rng.random() < 0.2 else 2
         parts = []
         for _ in range(k):
-            kind, rows = gen.diagram(rng, circles, small=True)
+            if rng.random() < 0.02:
+                # one part is a big page of many separate figures (size thresholds of the grouping code)
+                kind, rows = 'page', gen.page(rng, rng.choice([20, 40, 70, 140]))
+                ctx.tag('compositions_with_page')
+            else:
+                kind, rows = gen.diagram(rng, circles, small=True)
             # a part is a block: its own blank border rows/columns are kept as they are
             parts.append(rows)
         case = {'parts': parts, 'horizontal': rng.random() < 0.5, 'gaps': [rng.randint(1, 3) for _ in range(k - 1)]}
